@@ -647,6 +647,32 @@ func runC01(w *fw.W) {
 			finish(b)
 		}
 	}
+	// (1c) objects that implement the interpreter's protocols in Pangaea (their own _iter / next, call, S, B, ==, <=>,
+	// _missing, _incBy, digest, at): every place the interpreter reaches for a protocol hands such an object the
+	// arguments a Pangaea function needs
+	{
+		protos := []string{
+			"{_iter: m{{n: 0, next: m{1}}}}", "{_iter: m{ {i: [10, 20, 30]._iter, next: m{.i.next * 2}} }}", "{_iter: m{[1, 2]._iter}, next: m{5}}", "{next: m{7}}",
+			"{call: m{|x| x}}", "{call: m{|x, k: 1| [x, k]}}", "{S: m{\"s\"}, repr: m{\"r\"}}", "{B: m{true}}", "{'==: m{|o| true}, '!=: m{|o| false}}", "{'<=>: m{|o| 0}}.bear",
+			"{_missing: m{|name, a| [name, a]}}", "{_incBy: m{|n| self}, '<=>: m{|o| -1}}", "{digest: m{|pairs, k: 0| pairs}}", "{at: m{|i| i}}", "{'+: m{|o| o}, '-%: m{1}}",
+			"{_iter: 1}.bear({next: m{1}})", "{_iter: m{nil}}", "{_iter: m{{next: 3}}}", "{call: 3}", "{_name: m{\"N\"}, proto: 1}", "{keys: m{[1]}, values: m{[2]}, items: m{[[1, 2]]}}",
+		}
+		consumers := []string{"[p, p]@{|x| x}", "p@{|x| x}.len", "p$(0){|a, x| a + x}", "p@S", "p.A.len", "[1, 2]@^p", "3.^p", "\"#{p}\"", "(1 if p else 2)", "[p].has?(1)", "[p, 1].sort", "p + 1", "-p", "p.nope(1)", "(p:p).A",
+			"[1, 2]@(p){|x| [x, x]}", "p[0]", "p == p", "[p] == [p]", "p.try.next.A", "{**p}", "%{p: 1}[p]", "p.S", "p.repr", "p~@{|x| x}.len", "p&$(1){|a, x| a}", "p.first", "[3]@p", "p.zip([1]).A.len", "p =@{|x| x}"}
+		for pi, pr := range protos {
+			if !w.Take() {
+				continue
+			}
+			w.Begin("protocol object "+pr, map[string]any{"object": pr})
+			b := newBatch()
+			for ci, c := range consumers {
+				src := "p := " + pr + "\n" + c
+				w.Note(src)
+				observe(b, src, run(src, interp.Options{Fuel: 20000}), "protocol_object_programs", fmt.Sprintf("protocol|o%d|c%d", pi, ci), true)
+			}
+			finish(b)
+		}
+	}
 	// index: every pool value indexed by every pool value
 	for _, x := range pool.Vals {
 		if !w.Take() {
